@@ -16,6 +16,7 @@
 (*                            ones, i.e. the bytes at offset `written`)      *)
 (*  close                     wrapper.Close returned                         *)
 (*  end                       consumer read to the terminal error and closed *)
+(*  end_partial               consumer stopped early (early Close, Stop)     *)
 EXTENDS Naturals, Sequences, FiniteSets
 
 Bad(why) == [bad |-> TRUE, why |-> why]
@@ -28,6 +29,7 @@ CReset(e) ==
   [bad |-> FALSE, why |-> "", kind |-> e.kind, N |-> e.N, lens |-> e.lens,
    total |-> SumSeq(e.lens), closable |-> e.closable, wcloser |-> e.wcloser,
    delivered |-> 0,            \* bytes handed to the consumer so far
+   taken |-> 0,                \* bytes the sources handed to the wrapper so far
    written |-> 0,              \* bytes the tee writer received so far
    srcClosed |-> [i \in 1..Len(e.lens) |-> 0],
    wClosed |-> 0,
@@ -42,7 +44,7 @@ Expected(c) == IF c.kind = "limit" /\ c.total > c.N THEN c.N ELSE c.total
 Oversize(c) == c.kind = "limit" /\ c.total > c.N
 
 CSrcRead(c, e) ==
-  IF e.err = "err" THEN [c EXCEPT !.srcErrSeen = TRUE] ELSE c
+  [c EXCEPT !.srcErrSeen = @ \/ e.err = "err", !.taken = @ + e.n]
 
 CSrcClose(c, e) ==
   IF ~c.closable[e.src] THEN Bad("close on a source that is not a Closer")
@@ -64,6 +66,7 @@ Deliver(c, n, err, ok) ==
   ELSE IF err = "toolarge" /\ c.srcClosed[1] # 1 THEN Bad("ErrStreamTooLarge reported without having closed the source")
   ELSE IF err = "srcerr" /\ ~c.srcErrSeen THEN Bad("source error reported that no source returned")
   ELSE IF err = "other" THEN Bad("unexpected error value")
+  ELSE IF err = "closed" THEN [c EXCEPT !.delivered = d, !.term = err]   \* io.ErrClosedPipe from a stopped/closed tee: judged at the end
   ELSE IF c.kind = "tee" /\ c.written # d THEN Bad("tee writer did not receive exactly the bytes returned")
   ELSE [c EXCEPT !.delivered = d, !.term = IF err = "nil" THEN c.term ELSE err]
 
@@ -92,6 +95,20 @@ CEnd(c) ==
   ELSE IF c.kind = "tee" /\ c.wcloser /\ c.wClosed # 1 THEN Bad("tee writer not closed exactly once")
   ELSE c
 
+(* end of a run in which the consumer did NOT read to the end: it closed early, or (tee) called Stop while a Read was in  *)
+(* flight.  What must still hold: nothing taken from a source is lost (a tee hands every byte it took to the consumer), *)
+(* and Close closed every closable source exactly once - also when the Close of an earlier source failed, and however   *)
+(* often Close is called.                                                                                               *)
+CEndPartial(c) ==
+  IF c.kind = "tee" /\ c.taken # c.delivered
+    THEN Bad("bytes taken from the source were delivered to nobody")
+  ELSE IF c.kind = "tee" /\ c.written # c.delivered THEN Bad("tee writer did not receive exactly the bytes returned")
+  ELSE IF ~c.closed THEN c
+  ELSE IF \E i \in 1..Len(c.lens) : c.closable[i] /\ c.srcClosed[i] # 1
+       THEN Bad("a closable source was not closed exactly once by Close")
+  ELSE IF c.kind = "tee" /\ c.wcloser /\ c.wClosed # 1 THEN Bad("tee writer not closed exactly once")
+  ELSE c
+
 CNext(c, e) ==
   IF e.ev = "reset" THEN CReset(e)
   ELSE IF IsBad(c) THEN c
@@ -104,4 +121,5 @@ CNext(c, e) ==
          [] e.ev = "stop"     -> c      \* tee.Stop(): closes the writer only (wclose precedes it); the closing laws are judged at `end`
          [] e.ev = "close"    -> CClose(c)
          [] e.ev = "end"      -> CEnd(c)
+         [] e.ev = "end_partial" -> CEndPartial(c)
 =============================================================================
